@@ -20,6 +20,7 @@ violation.
 from __future__ import annotations
 
 import ast
+import os
 import re
 from dataclasses import dataclass, field
 
@@ -216,6 +217,7 @@ def _decline_reshaped(prog: Program, report: Report, before: int) -> None:
     report.findings[:] = keep
 
 
+SHAPE_GATING = "auto"  # "off" | "auto" (reviewed-tree instances only) | "all" (hand table too)
 AUTO_FLOOR = 0.7  # share of the reviewed-tree instances of a property that must still be present
 
 
@@ -232,7 +234,8 @@ def run_gates(prog: Program, report: Report, table: list, pid: str) -> None:
                 auto_total += 1
             before = len(report.findings)
             n += _run_one(prog, report, g)
-            if len(report.findings) > before:
+            mode = os.environ.get("PMVERIF_SHAPE", SHAPE_GATING)
+            if len(report.findings) > before and (mode == "all" or (mode == "auto" and g.rule in ("RG-auto", "RV-auto"))):
                 _decline_reshaped(prog, report, before)
         except AnalysisError as e:
             if g.rule in ("RG-auto", "RV-auto") and ("found 0 time" in str(e) or "expected at most" in str(e)):
@@ -275,7 +278,11 @@ def _run_one(prog: Program, report: Report, g) -> int:
         if isinstance(g, Gate):
             from ..gates import returns_reshaped
 
-            if g.max is None and g.min >= 1 and re.fullmatch(r"\^(False|True|None|break|continue)\$", g.target) and len(targets) > g.min and returns_reshaped(v):
+            negative = re.fullmatch(r"\^(False|None|break|continue)\$", g.target) is not None
+            # an added refusal / skip path (`return None`, `return False`, `continue`) is what a guard-clause
+            # clean-up produces and cannot be told from a new early exit; an added approval (`return True`)
+            # is judged as long as every reviewed return is still there
+            if g.max is None and g.min >= 1 and re.fullmatch(r"\^(False|True|None|break|continue)\$", g.target) and len(targets) > g.min and (negative or returns_reshaped(v)):
                 # constant answers are split and merged freely by refactorings: more of them than were
                 # reviewed cannot be attributed to the reviewed guard sets
                 raise AnalysisError(f"{g.rule}: {g.fn}: target /{g.target}/ found {len(targets)} times, expected at most {g.min} (a constant answer the reviewed code did not have: unrecognised)")
@@ -289,15 +296,42 @@ def _run_one(prog: Program, report: Report, g) -> int:
                     bad = [f for f in g.forbid if holds(dom, f)]
                     if g.exact:
                         allowed = {x for nd in g.needs for a in ([nd] if isinstance(nd, str) else nd) for x in need_facts(a)}
-                        bad += sorted(dom - allowed)
+                        from ..gates import alpha, expand_vanished, vanished
+
+                        # a renamed local: compare modulo renaming when the table's fact mentions a vanished name
+                        from ..gates import full_fact
+
+                        def _norm_fact(x: str) -> str:
+                            x = expand_vanished(v, x)
+                            x = full_fact(v, x) or x
+                            return alpha(x, v.locals | vanished(v, x))
+
+                        allowed_a = {_norm_fact(x) for x in allowed}
+                        bad += sorted(f for f in dom - allowed if _norm_fact(f) not in allowed_a)
                     if bad:
                         report.violate(g.rule, v.fn, t, f"over-guarded: {one_line(t)[:100]}", f"{g.why}; it is additionally guarded by {bad}, so it no longer happens in cases where it must", what=f"{g.why.split(';')[0]}: no stronger guard than {g.needs}")
         elif isinstance(g, Val):
             from .rn import canon, kind_of
 
+            if g.rule == "RV-auto" and len(targets) > 1:
+                # the instance was extracted for exactly one statement; several now match its head
+                raise AnalysisError(f"{g.rule}: {g.fn}: target /{g.target}/ found {len(targets)} times, expected at most 1 (the statement was split: unrecognised)")
             want_ast0 = ast.parse(g.expect, mode="eval").body
             want_ast = want_ast0
             want = canon(want_ast)
+            if g.kind == "ret" and len(targets) > max(g.min, 1) and all(isinstance(t, ast.Return) for t in targets):
+                # the documented single return was split into guarded returns: compare the conditional
+                # expression they abbreviate (`if c: return A` / `return B`  ==  `return A if c else B`)
+                from .rn import _ret_normal
+
+                body = [st for st in _ret_normal(list(v.fn.node.body)) if not isinstance(st, (ast.Assign, ast.AnnAssign)) and not (isinstance(st, ast.Expr) and isinstance(st.value, ast.Constant))]
+                if len(body) == 1 and isinstance(body[0], ast.Return) and body[0].value is not None:
+                    comb = body[0].value
+                    wa = _expand_reviewed_defs(v, want_ast0)
+                    if canon(v.res.expr(comb, 8)) == canon(v.res.expr(wa, 8)) or canon(comb) == canon(wa):
+                        report.ob(g.rule, g.fn, f"{g.why.split(';')[0]}: the guarded returns together are {canon(wa)[:80]}")
+                        return n + 1
+                    raise AnalysisError(f"{g.rule}: {g.fn}: the documented return `{want[:60]}` was split into {len(targets)} guarded returns whose combination found 0 time(s) in the documented form (restructured)")
             for t in targets:
                 n += 1
                 if g.kind.startswith("arg:"):
